@@ -48,6 +48,32 @@ func (s Step) i(name string) int {
 	return v
 }
 
+// iopt: an optional integer argument.
+func (s Step) iopt(name string, def int) int {
+	if _, ok := s.Args[name]; !ok {
+		return def
+	}
+	return s.i(name)
+}
+
+// atMagnitude runs f on the mesh with its positions scaled by 2^-e and scales the positions of the
+// result back by 2^e. Both scalings are exact, and what f computes (normals) does not depend on the
+// size of the mesh: the judge sees the operation applied at magnitude 2^-e on the same integers.
+func atMagnitude(m modeling.Mesh, e int, f func(modeling.Mesh) modeling.Mesh) modeling.Mesh {
+	if e == 0 || !m.HasFloat3Attribute(modeling.PositionAttribute) {
+		return f(m)
+	}
+	scale := func(x modeling.Mesh, k float64) modeling.Mesh {
+		it := x.Float3Attribute(modeling.PositionAttribute)
+		d := make([]vector3.Float64, it.Len())
+		for i := range d {
+			d[i] = it.At(i).Scale(k)
+		}
+		return x.SetFloat3Attribute(modeling.PositionAttribute, d)
+	}
+	return scale(f(scale(m, math.Ldexp(1, -e))), math.Ldexp(1, e))
+}
+
 func (s Step) str(name string) string {
 	var v string
 	if err := json.Unmarshal(s.Args[name], &v); err != nil {
@@ -207,9 +233,9 @@ func Exec(st Step, pool []*modeling.Mesh) (res modeling.Mesh, hasRes bool, ok bo
 	case "Normalize":
 		res = meshops.NormalizeAttribute3D(src(0), project.AttrName(st.i("id")))
 	case "FlatNormals":
-		res = meshops.FlatNormals(src(0))
+		res = atMagnitude(src(0), st.iopt("e", 0), meshops.FlatNormals)
 	case "SmoothNormals":
-		res = meshops.SmoothNormals(src(0))
+		res = atMagnitude(src(0), st.iopt("e", 0), meshops.SmoothNormals)
 	case "Laplacian":
 		res = meshops.LaplacianSmooth(src(0), project.AttrName(st.i("id")), st.i("iters"), float64(st.i("lam2"))/2)
 	case "Prim":
